@@ -48,6 +48,33 @@ def run(ctx):
         ctx.guard('C09.analysable', check, ctx, facts, cfg)
 
 
+def decision_fails_exactly_on(facts, dec, preds):
+    """the private predicate P among `preds` such that decision fn `dec` branches once on P(its own two parameters, in order), every Err
+    exit lies behind the false edge of that branch and no Ok exit does: dec(o, r).is_ok() == P(o, r).  None when there is none."""
+    db = facts.fns[dec].body
+    pn = facts.fns[dec].param_names()
+    errs, oks = core.result_exits(db)
+    for s_ in range(db.n):
+        t = db.term(s_)
+        if t['k'] != 'switch' or db.blocks[s_]['cleanup'] or len(t['targets']) != 1 or t['targets'][0][0] != 0:
+            continue
+        cc = db.canon_op(t['discr'])
+        neg = False
+        while cc[0] == 'un' and cc[1] == 'Not':
+            neg, cc = (not neg), cc[2]
+        if not (cc[0] == 'call' and cc[1] in preds and len(cc[2]) == 2 and list(cc[2]) == [('param', n_) for n_ in pn]):
+            continue
+        f_edge = (s_, t['otherwise'] if neg else t['targets'][0][1])
+        t_edge = (s_, t['targets'][0][1] if neg else t['otherwise'])
+        if errs and all(db.edge_dominates(f_edge, b) for (b, k, d) in errs) and f_edge[1] not in db.reachable_from(t_edge[1]) \
+                and not any(b2 in db.reachable_from(f_edge[1]) for (b2, k2, d2) in oks):
+            return cc[1]
+    return None
+
+
+VIA_PRED = {}
+
+
 def find_decision(ctx, facts, cfg):
     consumers = ['<rate::rate_default::DefaultRate<E> as rate::Rate<E>>::supports',
                  '<rate::rate_default::DefaultRateEncoder<E> as rate::RateEncoder<E>>::new',
@@ -55,24 +82,44 @@ def find_decision(ctx, facts, cfg):
                  '<rate::rate_default::DefaultRateDecoder<E> as rate::RateDecoder<E>>::new',
                  '<rate::rate_default::DefaultRateDecoder<E> as rate::RateDecoder<E>>::reset']
     cands = None
+    pred_calls = {}
     for c in consumers:
         f = ctx.anchor(facts, c, 'C09.b-single-source')
         if f is None:
             return None, consumers
         called = set()
         fin = core.inlined_fn(facts, c, lambda g, t, f0=f: (not g.reachable and not g.impl_trait and not g.in_trait and g.kind != 'Closure' and g.file == f0.file
-                                                          and not (g.output or '').startswith('std::result::Result<bool, Error>')), tag='c09d')
+                                                          and not (g.output or '').startswith('std::result::Result<bool, Error>') and g.output != 'bool'), tag='c09d')
+        preds = set()
         for b, t in fin.body.calls():
             p = t['callee'].get('path')
             g = facts.fns.get(p)
             if g is not None and (g.output or '').startswith('std::result::Result<bool, Error>'):
                 called.add(p)
+            if g is not None and g.output == 'bool' and not g.reachable and len(t['args']) == 2:
+                preds.add(p)
+        if c.endswith('::supports'):
+            pred_calls[c] = (called, preds)
+            continue        # supports selects no rate: it must agree with the decision, see below
         cands = called if cands is None else (cands & called)
     if not cands or len(cands) != 1:
-        ctx.violation('C09.b-single-source', 'no-single-decision', 'supports/new/reset of the default rate do not share exactly one decision fn returning Result<bool,Error> (found %s)' % sorted(cands or []),
+        ctx.violation('C09.b-single-source', 'no-single-decision', 'new/reset of the default rate do not share exactly one decision fn returning Result<bool,Error> (found %s)' % sorted(cands or []),
                       fn='rate::rate_default', cfg=cfg)
         return None, consumers
-    return sorted(cands)[0], consumers
+    dec = sorted(cands)[0]
+    for c, (called, preds) in pred_calls.items():
+        if dec in called:
+            continue
+        # supports answers from a private predicate P(original_count, recovery_count): the decision must fail exactly when P is false
+        P_ = decision_fails_exactly_on(facts, dec, preds)
+        ok = P_ is not None
+        if ok:
+            VIA_PRED[(id(facts), c)] = P_
+        if not ok:
+            ctx.violation('C09.b-single-source', 'no-single-decision', '%s neither calls the decision fn %s nor a predicate that %s fails exactly on (found predicates %s)' % (c, dec, dec, sorted(preds)),
+                          fn='rate::rate_default', cfg=cfg)
+            return None, consumers
+    return dec, consumers
 
 
 def atom_of(body, c, o, r):
@@ -318,10 +365,11 @@ def check(ctx, facts, cfg):
 
     for cp in consumers:
         # private helpers of the same file (constructing / reconfiguring the inner codec) are analysed in place
-        cf = core.inlined_fn(facts, cp, lambda g, t, f0=facts.fns[cp]: (not g.reachable and not g.impl_trait and not g.in_trait and g.kind != 'Closure'
-                                                                        and g.file == f0.file and g.path != dec and g.path not in wrappers), tag='c09w')
+        via = VIA_PRED.get((id(facts), cp))       # supports answering from the predicate the decision fails on
+        cf = core.inlined_fn(facts, cp, lambda g, t, f0=facts.fns[cp], via=via: (not g.reachable and not g.impl_trait and not g.in_trait and g.kind != 'Closure'
+                                                                                 and g.file == f0.file and g.path != dec and g.path != via and g.path not in wrappers), tag='c09w')
         cb = cf.body
-        dcalls = [(b, t) for b, t in cb.calls() if t['callee'].get('path') == dec or t['callee'].get('path') in wrappers]
+        dcalls = [(b, t) for b, t in cb.calls() if t['callee'].get('path') == (via or dec) or (not via and t['callee'].get('path') in wrappers)]
         okargs = dcalls and all([cb.canon_op(a) for a in t['args']] == [('param', 'original_count'), ('param', 'recovery_count')] for b, t in dcalls)
         if not okargs:
             ctx.violation('C09.b-single-source', 'decision-args', '%s does not call the decision with (original_count, recovery_count) in order' % cp,
